@@ -4,4 +4,5 @@ set -e
 cd "$(dirname "$0")/sim"
 export CARGO_NET_OFFLINE=true
 RUSTC_WRAPPER="$(pwd)/rustc-wrap.sh"; export RUSTC_WRAPPER
-exec cargo build --offline 2>&1
+cargo build --offline 2>&1
+./build-cli.sh /repo "$(pwd)/target/cli" 2>&1
